@@ -5,9 +5,10 @@ CONSTANTS
   ByteStrings <- BytesQuick
   NumSeqs <- NumsQuick
   NewObjs <- MCNewObjs
+  InheritBound <- MCInheritBound
   MaxDepth = 3
   Starts <- StartsObj1
-  Allowed = {}
+  Allowed = {"resources.shadow.deep", "fresh.aboveMax", "maxid.setObject", "counts.indirect", "delete.bookmark"}
   Emit = TRUE
   EmitMod = 150
   EmitModV = 20
